@@ -129,3 +129,12 @@ def run_case(ctx, i, rng):
     if nontriv:
         ctx.nontrivial(gen.fingerprint(case))
     ctx.sample(case, cap=2)
+
+
+def extra_stage(tier, seed, tmp):
+    """thorough tier: the repository's own test-suite as a workload under this property's monitors."""
+    if tier != "thorough":
+        return None
+    from ..runner import suite_under_monitors
+
+    return suite_under_monitors("C10", seed, tmp)
